@@ -5,7 +5,12 @@
                 validations are recorded for every route of the family (x 6 origin classes).
    Mode "walk"  (TLC -simulate): random Add / Delete / DeleteAll sequences over a small pool of
                 records from two sources (duplicates, deletions of unknown records), validations of
-                the whole route pool (both families, all ten AS_PATH shapes) after every step. *)
+                the whole route pool (both families, all ten AS_PATH shapes) after every step.
+   Mode "dup"   (TLC exhaustive): EVERY sequence of MaxSteps operations (the first one an Add) over
+                one record held by two sources - Add / Delete of the record by either source, a
+                second record in the same bucket, DeleteAll of either source: the same record from
+                several caches, repeated announcements from each bucket position, withdrawals by
+                each, flushes of one source in between. *)
 EXTENDS Rpki, RpkiDom, Json, SequencesExt, FiniteSetsExt
 
 CONSTANTS Mode, Fam, K, MaxSteps
@@ -42,17 +47,29 @@ GenInit == /\ Init
                              IN {a, RandomElement({x \in AllRecords : x.p = a.p}), RandomElement(Records4),
                                  RandomElement(Records4), RandomElement(Records6), RandomElement(AllRecords)}
 
-GenNext == /\ Mode = "walk" /\ Len(ops) < MaxSteps
+DupAdds == {[op |-> "Add", r |-> Tag(DupA, "c1"), v |-> TRUE], [op |-> "Add", r |-> Tag(DupA, "c2"), v |-> TRUE],
+            [op |-> "Add", r |-> Tag(DupB, "c2"), v |-> TRUE]}
+DupOps == DupAdds \cup
+          {[op |-> "Del", r |-> Tag(DupA, "c1"), v |-> TRUE], [op |-> "Del", r |-> Tag(DupA, "c2"), v |-> TRUE],
+           [op |-> "DelAll", c |-> "c1", v |-> TRUE], [op |-> "DelAll", c |-> "c2", v |-> TRUE]}
+DupNext == /\ Mode = "dup" /\ Len(ops) < MaxSteps
+           /\ \E o \in (IF ops = <<>> THEN DupAdds ELSE DupOps) : ops' = Append(ops, o)
+           /\ UNCHANGED <<vars, S, pat, pool>>
+
+WalkNext == /\ Mode = "walk" /\ Len(ops) < MaxSteps
            /\ \/ ops' = Append(ops, [op |-> "Add", r |-> Tag(RandomElement(pool), RandomElement({"c1", "c2"})), v |-> TRUE])
               \/ ops' = Append(ops, [op |-> "Add", r |-> Tag(RandomElement(pool), RandomElement({"c1", "c2"})), v |-> TRUE])
               \/ ops' = Append(ops, [op |-> "Del", r |-> Tag(RandomElement(pool), RandomElement({"c1", "c2"})), v |-> TRUE])
               \/ (RandomElement(1..10) <= 3 /\ ops' = Append(ops, [op |-> "DelAll", c |-> RandomElement({"c1", "c2"}), v |-> TRUE]))
            /\ UNCHANGED <<vars, S, pat, pool>>
 
+GenNext == WalkNext \/ DupNext
 GenSpec == GenInit /\ [][GenNext]_gvars
 
 EmitSets == Mode = "sets" =>
               PrintT("VPOUT " \o ToJson([kind |-> "sets", rk |-> SetKey, routes |-> RoutePool(SetKey), ops |-> SetOps(S)]))
 EmitWalk == (Mode = "walk" /\ Len(ops) = MaxSteps) =>
               PrintT("VPOUT " \o ToJson([kind |-> "walk", rk |-> "walk", routes |-> RoutePool("walk"), ops |-> ops]))
+EmitDup == (Mode = "dup" /\ Len(ops) = MaxSteps) =>
+              PrintT("VPOUT " \o ToJson([kind |-> "dup", rk |-> "dup", routes |-> RoutePool("dup"), ops |-> ops]))
 =============================================================================
